@@ -28,6 +28,10 @@ def run(ctx):
     ctx.rule("P4", "PatchLog::get_path_map: the cached path map is dropped on an (in)equality test of path_hint against events_len(), not an ordering test (any event logged since invalidates it)")
     ctx.rule("P5", "ValueState::{map_process, list_flush}: the conflict argument of every put_map / put_seq / replace_seq is computed from the patch state, never a literal")
     ctx.rule("P6", "ValueState::process_doc_op: the document op whose value enters the patch state went through Op::fix_counter (a counter's displayed value includes its increments)")
+    ctx.rule("P7", "local increment over a conflicted register: increment_replacement picks the last (winning) counter of the found ops, and the put patch built from it carries a computed conflict flag (several counters survive an increment)")
+    ctx.rule("P8", "Untangler: the current element's width is reset to a constant only where it was just added to the patch index (flush); pending updates replace it only with the width of a visible op")
+    ctx.rule("P9", "ValueState::{map_process, list_flush}: an Increment patch is logged only on the false edge of the doc value's `expose` flag (a counter the view never held gets a put)")
+    ctx.rule("P10", "TransactionInner::{local_map_op, local_list_op}: after the op is recorded a put patch can follow (the conflict-resolving put of the unchanged winner clears the view's conflict flag)")
     ctx.rule("P2", "C15 R7-pair re-run")
     ctx.rule("P3", "C24 E6 (delete_seq lengths) and E4 (Untangler index steps) re-run")
     f = ctx.facts()
@@ -109,6 +113,10 @@ def run(ctx):
     check_patch_state_flags(ctx, f)
     check_path_hint(ctx, f)
     check_doc_counter(ctx, f)
+    check_increment_replacement(ctx, f)
+    check_untangler_width(ctx, f)
+    check_increment_vs_expose(ctx, f)
+    check_conflict_resolution_logged(ctx, f)
     C15.check_expose_pair(ctx, f)
     C24.check_delete_lengths(ctx, f)
     C24.check_untangler_index(ctx, f)
@@ -179,3 +187,122 @@ def check_doc_counter(ctx, f):
                     ok = True
         ctx.ob("P6", k, ok, t["sp"], "fix_counter on the op before its value is taken" if ok else
                "a document op's creation value is recorded as what is on display: for a counter the increments held by its successors are missing, so an exposing put patch carries a stale count")
+
+
+def check_increment_replacement(ctx, f):
+    IR = [p for p in f.fns if norm_fn(p) == INNER + "increment_replacement"]
+    if len(IR) != 1:
+        raise facts.AnchorMissing("transaction::inner::increment_replacement")
+    b = cfg.body(f.fns[IR[0]])
+    ctx.analysed_fns.add(IR[0])
+    counter_closures = {p for p in f.fns if p.startswith(IR[0] + "::{closure") and any((callee(t) or "").endswith("Op::is_counter") for _, t in cfg.body(f.fns[p]).calls())}
+    picks = []
+    for bi, t in b.calls():
+        name = (norm_fn(t.get("fn")) or "").split("::")[-1]
+        if name in ("find", "rfind", "position", "rposition", "find_map", "last", "next", "next_back", "nth", "max_by_key", "min_by_key") and t.get("args"):
+            pv = b.provenance(t["args"][-1], through_calls=False)
+            if pv.closures & counter_closures or name in ("last", "next", "next_back", "nth"):
+                picks.append((bi, t, name))
+    ctx.floor("selection of the counter in increment_replacement", len(picks), 1)
+    for k, (bi, t, name) in util.ordinal_keys(picks, lambda it: "increment_replacement|counter selected"):
+        rev = "adapters::rev::Rev" in (t.get("resargs") or t.get("fnargs") or "") or "adapters::rev::Rev" in " ".join(t.get("argtys", []))
+        ok = name in ("rfind", "rposition", "last", "next_back", "max_by_key") or (rev and name in ("find", "next", "position", "find_map"))
+        ctx.ob("P7", k, ok, t["sp"], "the last counter among the found ops (the winner after the increment)" if ok else
+               "the patch value for an increment over a conflicted register is taken from the first counter found (%s): with several counters the view shows the loser's count" % name)
+    FO = [p for p in f.fns if norm_fn(p) == INNER + "TransactionInner::finalize_op"]
+    if len(FO) != 1:
+        raise facts.AnchorMissing("TransactionInner::finalize_op")
+    g = cfg.body(f.fns[FO[0]])
+    ctx.analysed_fns.add(FO[0])
+    repl = [i for i in range(1, g.argc + 1) if g.local_name(i) == "replaced"]
+    if len(repl) != 1:
+        raise facts.AnchorMissing("parameter `replaced` of finalize_op")
+    puts = []
+    for bi, t in g.calls():
+        if (callee(t) or "").endswith("PatchLog::put") and len(t.get("args", [])) >= 7:
+            pv = g.provenance(t["args"][3], through_calls=True)
+            if pv.depends_on_param(repl[0]):
+                puts.append((bi, t))
+    ctx.floor("put patches built from the increment replacement in finalize_op", len(puts), 1)
+    for k, (bi, t) in util.ordinal_keys(puts, lambda it: "finalize_op|conflict flag of the materialized counter"):
+        lit = util.op_const(t["args"][5])
+        ctx.ob("P7", k, lit is None, t["sp"], "computed from the register" if lit is None else
+               "the put patch that replaces a conflicted register after a local increment carries a literal conflict flag (%s): when two counters survive, the view shows the register as resolved" % lit.get("v"))
+
+
+def check_untangler_width(ctx, f):
+    n = 0
+    for p, r in sorted(f.fns.items()):
+        np_ = norm_fn(p)
+        if r["ckey"] != ("automerge", "lib") or not np_.startswith("automerge::op_set2::change::batch::Untangler::") or "{closure" in p:
+            continue
+        b = cfg.body(r)
+        stores = [(bi, st) for bi, blk in enumerate(b.blocks) if not blk.get("cleanup") for st in blk["st"] if st["d"]["p"] and st["d"]["p"][-1] == ".width"]
+        if not stores:
+            continue
+        ctx.analysed_fns.add(p)
+        consumed = [bi for bi, blk in enumerate(b.blocks) for st in blk["st"] if st["d"]["p"] and st["d"]["p"][-1] == ".index" and
+                    any(pl and ".width" in b.origin(pl["l"], tuple(pl["p"]))[1] for o in _flat_operands(b, st["rv"]) for pl in [o.get("c") or o.get("m")])]
+        for k, (bi, st) in util.ordinal_keys(stores, lambda it, nm=np_.split("::")[-1]: "%s|store to width" % nm):
+            n += 1
+            lit = st["rv"]["k"] == "Use" and util.op_const(st["rv"]["o"][0]) is not None
+            ok = (not lit) or any(cb == bi or b.block_dominates(cb, bi) for cb in consumed)
+            ctx.ob("P8", k, ok, st["sp"], ("reset after it was added to the index" if lit else "a width") if ok else
+                   "the element's width is reset to a constant although it was not added to the patch index yet: a surviving value's width is lost and the following inserts are logged one position too low")
+    ctx.floor("stores to Untangler.width", n, 4)
+
+
+def _flat_operands(b, rv, depth=3):
+    """operands of an rvalue, looking through single-definition temporaries (checked additions, copies)"""
+    out = []
+    for o in rv.get("o", ()):
+        out.append(o)
+        pl = o.get("c") or o.get("m")
+        if pl is not None and depth > 0 and (not pl["p"] or pl["p"] == [".0"]):
+            d = b.single_def(pl["l"])
+            if d and d[1] != "t":
+                out += _flat_operands(b, d[2]["rv"], depth - 1)
+    return out
+
+
+def check_increment_vs_expose(ctx, f):
+    n = 0
+    for tail in ("map_process", "list_flush"):
+        P = [p for p in f.fns if norm_fn(p) == "automerge::op_set2::change::batch::ValueState::" + tail]
+        if len(P) != 1:
+            raise facts.AnchorMissing("ValueState::" + tail)
+        b = cfg.body(f.fns[P[0]])
+        ctx.analysed_fns.add(P[0])
+        incs = [(bi, t) for bi, t in b.calls() if (callee(t) or "").startswith("automerge::patches::patch_log::PatchLog::increment")]
+        not_exposed = cfg.cond_edges(b, atom_place=lambda og: bool(og[1]) and og[1][-1] == ".expose", want=False)
+        exposed = cfg.cond_edges(b, atom_place=lambda og: bool(og[1]) and og[1][-1] == ".expose", want=True)
+        # a match guard `if d.id == c.id && d.expose` that fails falls through to the next arm's own `d.id == c.id` test, so the
+        # not-exposed edge does not dominate the increment in the CFG (the two id tests are correlated): the increment must lie
+        # downstream of a not-exposed edge and of no exposed edge
+        after_not = set().union(*[b.reachable(start=e[1]) for e in not_exposed]) if not_exposed else set()
+        after_exp = set().union(*[b.reachable(start=e[1]) for e in exposed]) if exposed else set()
+        for k, (bi, t) in util.ordinal_keys(incs, lambda it, tl=tail: "%s|increment patch" % tl):
+            n += 1
+            ok = bi in after_not and bi not in after_exp
+            ctx.ob("P9", k, ok, t["sp"], "only when the incremented counter was already on display" if ok else
+                   "an Increment patch is logged for a counter that this merge exposes (its winner was overwritten by the increment): the view never held the counter and fails with BadIncrement or keeps the old value")
+    ctx.floor("increment patches in ValueState", n, 2)
+
+
+def check_conflict_resolution_logged(ctx, f):
+    for tail in ("local_map_op", "local_list_op"):
+        P = [p for p in f.fns if norm_fn(p) == INNER + "TransactionInner::" + tail]
+        if len(P) != 1:
+            raise facts.AnchorMissing("TransactionInner::" + tail)
+        b = cfg.body(f.fns[P[0]])
+        ctx.analysed_fns.add(P[0])
+        rec = [bi for bi, t in b.calls() if (callee(t) or "").endswith("TransactionInner::insert_local_op")]
+        if not rec:
+            raise facts.AnchorMissing("insert_local_op call in " + tail)
+        puts = [(bi, t) for bi, t in b.calls() if (callee(t) or "").split("::")[-1] in ("put", "put_map", "put_seq") and "PatchLog::" in (callee(t) or "") and
+                any(b.can_reach(r, bi) for r in rec)]
+        cleared = [(bi, t) for bi, t in puts if (util.op_const(t["args"][5]) or {}).get("v") == "0"]
+        ok = bool(cleared)
+        ctx.ob("P10", "%s|conflict-resolving put is logged" % tail, ok, (cleared[0][1]["sp"] if cleared else b.rec["sp"]),
+               "a put of the unchanged winner with the conflict cleared can follow the recorded op" if ok else
+               "a put that only resolves a conflict (same value as the winner) is recorded without any patch: a materialized view keeps the register flagged as conflicted")
